@@ -35,7 +35,8 @@ MonInit ==
    curAtClose |-> 0,        \* the link that existed when close() was called
    dead |-> {},             \* connections the gateway ended or on which a write failed
    openedLate |-> {},       \* connections accepted after close() was called
-   shut |-> {}]             \* connections whose writer the client closed
+   shut |-> {},             \* connections whose writer the client closed
+   last |-> <<>>]           \* (model only) the events of the last step
 
 Fail(m, c) == IF m.viol = "" THEN [m EXCEPT !.viol = c] ELSE m
 
